@@ -7,7 +7,7 @@ from harness.props import C01
 ID = 'C05'
 LEAN_TARGETS = ['Props.C05']
 # Tie A: equivalence theorems generated from the current source by translate/py2lean.py (checked on every run)
-TIE_A = ['shirokovN_eq'] + ['hitzer_tail_ok', 'hitzer_num1_eq', 'hitzer_num2_eq', 'hitzer_num3_eq', 'hitzer_num4_eq', 'hitzer_num5_eq'] + ['meth_pick_inv_eq', 'meth_pow_eq']
+TIE_A = ['shirokovN_eq'] + ['hitzer_tail_ok', 'hitzer_num1_eq', 'hitzer_num2_eq', 'hitzer_num3_eq', 'hitzer_num4_eq', 'hitzer_num5_eq'] + ['meth_pick_inv_eq', 'meth_pow_eq', 'kernel_leftmat_eq', 'kernel_lainv_eq']
 OBLIGATIONS = [
     'C05.left_inv_iff_right_inv', 'C05.all_methods_agree', 'C05.normalInv_correct', 'C05.hitzer_partial', 'C05.shirokov_partial',
     'C05.zero_divisor_not_invertible', 'C05.one_add_e_singular', 'C05.pow_loop', 'C05.neg_pow',
